@@ -445,7 +445,8 @@ func (res *CheckResult) checkSource(source parser.Source) {
 			res.unboundedAccountInSend = source.Address
 		}
 
-		if res.unboundedSend {
+		// a bounded overdraft is a bounded source: it can be emptied
+		if res.unboundedSend && source.Bounded == nil {
 			res.Diagnostics = append(res.Diagnostics, Diagnostic{
 				Range: source.Address.GetRange(),
 				Kind:  &InvalidUnboundedAccount{},
